@@ -3,12 +3,9 @@ package main
 import (
 	"bufio"
 	"bytes"
-	"encoding/json"
 	"fmt"
 	"io"
 	"math/rand"
-	"net/http"
-	"net/http/httptest"
 	"os"
 	"os/exec"
 	"strings"
@@ -21,10 +18,14 @@ import (
 
 // ---------------------------------------------------------------------------------------------------
 // rpcserver stream (C18, runtime clause — supporting evidence, no model): the real JSON-RPC server (rpc/server) with the
-// ledger and embedded APIs registered, driven through its HTTP handler in-process with malformed, oversized, deeply
-// nested, wrongly typed, batched and hostile requests. Monitor: the handler never panics out, every answer to a
-// JSON request is a JSON-RPC response (result or error object) or an HTTP error status, and the server keeps
-// answering a valid request correctly after every hostile one.
+// ledger and embedded APIs registered, driven with malformed, oversized, deeply nested, wrongly typed, batched and
+// hostile requests over EVERY transport the server offers (s_rpcserver_transports.go): its HTTP handler called
+// in-process, a real net/http server, the WebSocket handler, a unix-socket listener (Server.ServeListener, the IPC
+// endpoint) and Server.ServeCodec on an in-process pipe. Monitors: no transport lets a panic out or drops a request;
+// every JSON request that asks for an answer gets exactly one well-formed JSON-RPC response object (batches: one array
+// with one response per element that is not a notification, ids echoed in order), notifications get none; malformed
+// text gets an error response, an HTTP error status or — on a stream — a closed connection; after every hostile request
+// the same connection (stream) / the server (HTTP) still answers a valid request correctly; the process survives.
 // ---------------------------------------------------------------------------------------------------
 
 func init() {
@@ -56,6 +57,16 @@ func init() {
 	})
 }
 
+// flushChildFails prints the monitor failures not yet handed to the parent (at once: a later request may kill the process)
+var childFailsPrinted int
+
+func flushChildFails(c *Ctx) {
+	for ; childFailsPrinted < len(c.Fails); childFailsPrinted++ {
+		fmt.Println("FAIL " + c.Fails[childFailsPrinted])
+	}
+	os.Stdout.Sync()
+}
+
 func rpcServerChild(seed int64, nreq int) {
 	c := &Ctx{R: rand.New(rand.NewSource(seed)), Seed: seed, N: nreq, w: bufio.NewWriter(io.Discard), Stats: map[string]int{}}
 	defer func() {
@@ -64,9 +75,7 @@ func rpcServerChild(seed int64, nreq int) {
 				fmt.Println("HIT " + k)
 			}
 		}
-		for _, f := range c.Fails {
-			fmt.Println("FAIL " + f)
-		}
+		flushChildFails(c)
 		fmt.Println("CHILD-FINISHED")
 		os.Stdout.Sync()
 	}()
@@ -87,34 +96,12 @@ func rpcServerChild(seed int64, nreq int) {
 		must(srv.RegisterName("embedded.plasma", embedded.NewPlasmaApi(n.Z)))
 		must(srv.RegisterName("embedded.stake", embedded.NewStakeApi(n.Z)))
 
-		post := func(body []byte, ctype string) (code int, resp string, panicked string) {
-			panicked = safely(func() {
-				req := httptest.NewRequest(http.MethodPost, "/", bytes.NewReader(body))
-				req.Header.Set("Content-Type", ctype)
-				w := httptest.NewRecorder()
-				srv.ServeHTTP(w, req)
-				code = w.Code
-				resp = w.Body.String()
-			})
-			return
-		}
 		H := n.Height()
 		fmo, _ := n.Chain().GetFrontierMomentumStore().GetFrontierMomentum()
 		frontierHash := fmo.Hash.String()
-		healthy := func(after string) bool {
-			code, resp, p := post([]byte(`{"jsonrpc":"2.0","id":7,"method":"ledger.getFrontierMomentum","params":[]}`), "application/json")
-			var out struct {
-				Result struct {
-					Height uint64 `json:"height"`
-				} `json:"result"`
-			}
-			if p != "" || code != 200 || json.Unmarshal([]byte(resp), &out) != nil || out.Result.Height != H {
-				c.Fail("C18: after the request [%s] the server no longer answers ledger.getFrontierMomentum correctly (code=%d panic=%q body=%.120s)", after, code, p, resp)
-				return false
-			}
-			return true
-		}
-		if !healthy("startup") {
+		ts := newRpcTransports(c, srv, H)
+		defer ts.closeAll()
+		if !ts.allHealthy("startup") {
 			return
 		}
 		addr := g.User1.Address.String()
@@ -189,48 +176,36 @@ func rpcServerChild(seed int64, nreq int) {
 				return []byte("\x00\xff\xfe{}")
 			}
 		}
+		sb := &batchGen{c: c, valid: valid, addr: addr}
 		for i := 0; i < c.N; i++ {
 			var body []byte
 			kind := "mutated"
-			if c.R.Intn(5) == 0 {
+			switch x := c.R.Intn(10); {
+			case x < 2:
 				body = garbage()
 				kind = "garbage"
-			} else {
+			case x < 7:
 				body = []byte(mutate(valid[c.R.Intn(len(valid))]))
+			default:
+				// structured single / batch hostility: the same body over EVERY transport
+				body = sb.next()
+				for _, t := range ts.list {
+					if !ts.exchange(t, "structured", body, "application/json") {
+						return
+					}
+				}
+				continue
 			}
 			ctype := "application/json"
 			if c.R.Intn(20) == 0 {
 				ctype = "text/plain"
 			}
-			desc := fmt.Sprintf("%s len=%d %.160q", kind, len(body), string(body))
-			fmt.Println("REQ " + desc)
-			os.Stdout.Sync()
-			code, resp, p := post(body, ctype)
-			if p != "" {
-				c.Fail("C18: the JSON-RPC server panicked on request [%s]: %s", desc, p)
-				return
-			}
-			class := "http-error"
-			if code == 200 {
-				t := strings.TrimSpace(resp)
-				switch {
-				case t == "":
-					class = "empty"
-				case json.Valid([]byte(t)) && (strings.Contains(t, `"error"`) || strings.Contains(t, `"result"`)):
-					class = "jsonrpc-response"
-					if strings.Contains(t, `"error"`) {
-						class = "jsonrpc-error"
-					}
-				default:
-					class = "other"
-					c.Fail("C18: the JSON-RPC server answered request [%s] with something that is neither a result nor an error object: %.200s", desc, t)
-				}
-			}
-			c.Hit("server-" + class)
-			if i%5 == 0 && !healthy(desc) {
+			// mutated / garbage requests: the transports in turn
+			t := ts.list[i%len(ts.list)]
+			if !ts.exchange(t, kind, body, ctype) {
 				return
 			}
 		}
-		healthy("end")
+		ts.allHealthy("end")
 	}()
 }
